@@ -18,10 +18,10 @@ EXPLANATION = (
     "Does NOT decide: cache coherence across reorg histories; value equality with a reference computation.")
 RULES = {
     'R1': 'constants and expression shape of percentiles()',
-    'R2': 'sibling agreement of the two fee-rate computations; EXPR of fee_rate_per_vbyte',
+    'R2': 'sibling agreement of the two fee-rate computations; EXPR of fee_rate_per_vbyte; every looked-up input is counted',
     'R3': 'input chain, iteration order, stop conditions',
     'R4': 'WRITERS and decision table of the percentile cache',
-    'R5': 'eager/lazy switch in the heartbeat',
+    'R5': 'eager/lazy switch in the heartbeat (exact path condition)',
 }
 ASSUMPTIONS = ['bitcoin::Transaction::vsize is the BIP141 virtual size']
 FP = 'ic_btc_canister::api::fee_percentiles::'
